@@ -112,6 +112,8 @@ pub fn judge(ctx: &Ctx, l: &mut Local, m: &Params, site: Site, date: NaiveDate, 
 }
 
 pub fn explore(ctx: &Ctx) {
+    // call sequences from non-initial states (see history.rs)
+    crate::history::explore(ctx, "policy", &crate::history::alphabet_policy(), 2);
     let quick = ctx.tier == Tier::Quick;
     ctx.rule("every (site, method, date) enumerated once, dates in order; non-trivial = dates on which Fajr or Isha is conventionally missing (the fallback engaged); ties (two good dates at equal distance) counted separately");
     ctx.assume("reference nearest good date from a conventional sweep (policy None) over the same site/method: closest date with both Fajr and Isha valid, earlier date on ties, within 366 days");
